@@ -91,6 +91,17 @@ fn build(tier: Tier) -> Box<dyn Check> {
             )
         }),
     ));
+    // 4b. the array is read before its subscript is evaluated (a subscript that changes the array)
+    fams.push((
+        "subscript-order".into(),
+        Space::of(vec![
+            "rock q with 1, 2, 3\nsay q at roll q\nsay q\n".to_string(),
+            "rock q with 2, 1, 0\nput q at roll q into r\nsay r\nsay q\n".to_string(),
+            "rock q with 1, 2, 3\ngrow takes k\nrock q with 9\ngive back k\n\nsay q at grow taking 3\nsay q\n".to_string(),
+            "rock q with 1, 2, 3\nsay q at roll q at 0\n".to_string(),
+            "put \"abc\" into s\nsay s at 1 plus s at 2\n".to_string(),
+        ]),
+    ));
     // 5. compound assignment
     let cops: Space<&'static str> = Space::of(vec!["plus", "with", "minus", "times", "over", "+", "-", "*", "/"]);
     fams.push((
